@@ -6,8 +6,8 @@ from checks import callcommon, ctxcommon
 from framework import Case
 
 PROP = "C02"
-GENERATED = ['OpSemantics', 'DtypeTables', 'Core', 'Wrapper', 'SrcExpand', 'SrcHints', 'SrcDecorate', 'HintLoop', 'Decorate', 'ShapeLoop', 'SrcShape']  # generated files this check's tie depends on
-LEAN_MODULES = ["Properties.C02", "Properties.Core", "Properties.CoreWrap", "Properties.Prov.Expand", "Properties.Prov.Hints", "Properties.Prov.Decorate", "Properties.CoreHints", "Properties.CoreDecorate", "Properties.CoreShape", "Properties.Prov.Shape"]
+GENERATED = ['OpSemantics', 'DtypeTables', 'Core', 'Wrapper', 'SrcExpand', 'SrcHints', 'SrcDecorate', 'HintLoop', 'Decorate', 'ShapeLoop', 'SrcShape', 'Resolve']  # generated files this check's tie depends on
+LEAN_MODULES = ["Properties.C02", "Properties.Core", "Properties.CoreWrap", "Properties.Prov.Expand", "Properties.Prov.Hints", "Properties.Prov.Decorate", "Properties.CoreHints", "Properties.CoreDecorate", "Properties.CoreShape", "Properties.Prov.Shape", "Properties.CoreResolve"]
 RULE = (
     "seeded contexts that are conforming by construction (0 perturbations in 3 of 4 cases), ranks 0-5, zero-sized axes, zero-length groups, "
     "tuples of length 1-3, optionals, providers; each presented (a) directly to DLTypeContext and (b) as a call of a generated dltyped "
